@@ -25,14 +25,16 @@ def table0():
         ev = json.load(open(os.path.join(ROOT, "evidence", f"{pid}.json")))
         cov = ev["coverage"]
         fns = cov.get("functions_under_contract", {})
-        short = ", ".join(f"`{q.split('multidecoder.')[-1].replace('decoders.', '')}`" for q in fns) or "—"
+        names = [f"`{q.split('multidecoder.')[-1].replace('decoders.', '')}`" for q in fns]
+        short = (f"{len(names)} functions: " + ", ".join(names[:6]) + (f", … (+{len(names) - 6}, listed in the evidence)" if len(names) > 6 else "")) if names else "—"
         be = cov.get("by_backend", {})
         z3n = sum(v for b, v in be.items() if b.startswith("z3"))
         c5n = sum(v for b, v in be.items() if b.startswith("cvc5"))
         bounded = "; ".join(f"{b['name'].replace('bounded_', '')} ({b['evaluations']})" for b in cov.get("bounded", [])) or "—"
         kf = len(cov.get("known_finding_obligations", []))
         n = f"{cov.get('discharged', 0)} of {cov.get('obligations', 0)}" + (f" (+{kf} inside recorded findings)" if kf else "")
-        rows.append(f"| {pid} | {n}: {short} | z3 {z3n}, cvc5 {c5n}; {round(cov.get('solver_time_s', 0))} s solver time | {bounded} | {getattr(mod, 'LEVEL', '')} |")
+        hits = cov.get("cache_hits", 0)
+        rows.append(f"| {pid} | {n}: {short} | z3 {z3n}, cvc5 {c5n}" + (f" ({hits} of them cache hits in this run)" if hits else f"; {round(cov.get('solver_time_s', 0))} s solver time") + f" | {bounded} | {getattr(mod, 'LEVEL', '')} |")
     return "\n".join(rows)
 
 
